@@ -236,6 +236,30 @@ impl Swarm {
         Ok(())
     }
 
+    /// "Without any surviving connection hanging": a connection task must never wait for a block
+    /// that its honest peer has already delivered (it would sit there until the keep-alive limit).
+    fn hanging(&self, w: &FullWorld, mon: &Mon) -> Option<(&'static str, String)> {
+        for i in 0..self.owners.len() {
+            if !self.live(w, i) {
+                continue;
+            }
+            if let Some(h) = w.handler(i) {
+                if let Some(rx) = &h.piece_rx {
+                    for (b, l) in &rx.requested {
+                        let owed = mon.p[i].outstanding.iter().any(|r| r.0 as usize == rx.piece_index && r.1 as usize == *b && r.2 as usize == *l);
+                        if !owed {
+                            return Some((
+                                "connection-waits-for-a-block-already-delivered",
+                                format!("peer {}: the connection task still waits for block ({}, {}) of piece {}, but the peer has answered every request it received except {:?}", i, b, l, rx.piece_index, mon.p[i].outstanding),
+                            ));
+                        }
+                    }
+                }
+            }
+        }
+        None
+    }
+
     fn health(&self, w: &FullWorld) -> Option<(&'static str, String)> {
         if let Some(p) = w.panics.first() {
             let class = if p.contains("session.rs") { "session-panicked" } else { "task-panicked" };
@@ -307,7 +331,10 @@ impl Sys for Swarm {
             self.note(mon, sym);
         }
         self.sync(w, mon);
-        self.health(w)
+        if let Some(v) = self.health(w) {
+            return Some(v);
+        }
+        self.hanging(w, mon)
     }
     fn key(&self, w: &FullWorld, mon: &Mon) -> String {
         let mut k = w.session_key();
@@ -343,6 +370,9 @@ impl Sys for Swarm {
         let mut trail: Vec<String> = vec![];
         loop {
             if let Some(v) = self.health(w) {
+                return Some(v);
+            }
+            if let Some(v) = self.hanging(w, mon) {
                 return Some(v);
             }
             if self.complete(w).is_ok() {
@@ -425,6 +455,151 @@ pub fn scenarios(thorough: bool) -> Vec<(Swarm, usize)> {
     v
 }
 
+// -------------------------------------------------------------------------------------------
+// Unseamed end-to-end replay: the same honest download over real loopback TCP, real clock,
+// connect seam inactive (the HTTP seam still answers the announce)
+// -------------------------------------------------------------------------------------------
+
+/// Messages an honest seeder receives when it follows the fair continuation from the initial state,
+/// in the full-session world over the in-memory seams.
+fn pipe_transcript(s: &Swarm, dir: &PathBuf) -> Result<(Vec<String>, Vec<(PathBuf, Vec<u8>)>), String> {
+    let (mut w, mut mon) = s.build(dir);
+    if let Some((c, why)) = s.final_check(&mut w, &mut mon, false) {
+        return Err(format!("pipe run failed: {} {}", c, why));
+    }
+    // first connection of peer 0 only: collect what the client wrote, in order
+    let writes = w.peers[0].conn.as_ref().map(|c| c.pipe.writes()).unwrap_or_default();
+    let _ = writes;
+    let msgs: Vec<String> = w.first_conn_msgs.get(0).cloned().unwrap_or_default();
+    let outs = w.t.expected_outputs().into_iter().map(|(rel, _)| { let d = std::fs::read(w.dir.join(&rel)).unwrap_or_default(); (rel, d) }).collect();
+    Ok((msgs, outs))
+}
+
+fn tcp_transcript(s: &Swarm, dir: &PathBuf) -> Result<(Vec<String>, Vec<(PathBuf, Vec<u8>)>), String> {
+    use tokio::io::{AsyncReadExt, AsyncWriteExt};
+    core::wipe_dir(dir);
+    rdest::verif::clear_snapshots();
+    rdest::verif::set_choices(vec![]);
+    rdest::verif::set_net(None); // real TcpStream::connect
+    let t = s.torrent();
+    let rt = tokio::runtime::Builder::new_current_thread().enable_all().build().map_err(|e| e.to_string())?;
+    let local = tokio::task::LocalSet::new();
+    let owners = s.owners[0].clone();
+    let res: Result<Vec<String>, String> = local.block_on(&rt, async {
+        let listener = tokio::net::TcpListener::bind("127.0.0.1:0").await.map_err(|e| e.to_string())?;
+        let addr = listener.local_addr().map_err(|e| e.to_string())?;
+        let mut cfg = peer_cfg(0, true);
+        cfg.addr = addr.to_string();
+        let cfg2 = cfg.clone();
+        rdest::verif::set_http(Some(Box::new(move |_req: &reqwest::Request| crate::httpfake::respond(200, crate::fullworld::tracker_body(&[&cfg2])))));
+        let mut session = rdest::Session::new(t.meta.clone(), *crate::world::OWN_ID);
+        let session_task = tokio::task::spawn_local(async move { session.verif_run().await });
+        let (mut sock, _) = tokio::time::timeout(std::time::Duration::from_secs(10), listener.accept()).await.map_err(|_| "client never connected".to_string())?.map_err(|e| e.to_string())?;
+        sock.set_nodelay(true).ok();
+        let mut received: Vec<u8> = vec![];
+        let mut decoded = 0usize; // messages decoded so far
+        let mut msgs: Vec<Msg> = vec![];
+        let mut buf = vec![0u8; 65536];
+        // lock-step honest seeder: handshake, bitfield, unchoke, then answer the oldest request
+        let mut to_send: Vec<Vec<u8>> = vec![
+            refwire::encode(&refwire::handshake(t.meta.info_hash(), &cfg.id)),
+            refwire::encode(&Msg::Bitfield(refwire::bitfield_bytes(&owners))),
+            refwire::encode(&Msg::Unchoke),
+        ];
+        to_send.reverse();
+        let mut outstanding: Vec<(u32, u32, u32)> = vec![];
+        let mut closed = false;
+        loop {
+            // drain what the client wrote until it is quiet for 60 ms
+            loop {
+                match tokio::time::timeout(std::time::Duration::from_millis(60), sock.read(&mut buf)).await {
+                    Ok(Ok(0)) => {
+                        closed = true;
+                        break;
+                    }
+                    Ok(Ok(n)) => received.extend_from_slice(&buf[..n]),
+                    Ok(Err(_)) => {
+                        closed = true;
+                        break;
+                    }
+                    Err(_) => break,
+                }
+            }
+            let (all, _, err) = refwire::decode_stream(&received);
+            if let Some(e) = err {
+                return Err(format!("client wrote undecodable bytes over TCP: {}", e));
+            }
+            for m in &all[decoded..] {
+                match m {
+                    Msg::Request(a, b, l) => outstanding.push((*a, *b, *l)),
+                    Msg::Cancel(a, b, l) => outstanding.retain(|r| r != &(*a, *b, *l)),
+                    _ => {}
+                }
+                msgs.push(m.clone());
+            }
+            decoded = all.len();
+            if closed {
+                break;
+            }
+            let next = if let Some(b) = to_send.pop() {
+                Some(b)
+            } else if !outstanding.is_empty() {
+                let r = outstanding.remove(0);
+                Some(refwire::encode(&Msg::Piece(r.0, r.1, t.pieces[r.0 as usize][r.1 as usize..(r.1 + r.2) as usize].to_vec())))
+            } else {
+                None
+            };
+            match next {
+                Some(b) => sock.write_all(&b).await.map_err(|e| e.to_string())?,
+                None => {
+                    // nothing to do: the client closes the connection when it is done
+                    match tokio::time::timeout(std::time::Duration::from_secs(5), sock.read(&mut buf)).await {
+                        Ok(Ok(0)) | Ok(Err(_)) => break,
+                        Ok(Ok(n)) => received.extend_from_slice(&buf[..n]),
+                        Err(_) => return Err("client neither closed the connection nor asked for anything for 5 s".to_string()),
+                    }
+                }
+            }
+        }
+        // give the extractor a moment
+        tokio::time::sleep(std::time::Duration::from_millis(300)).await;
+        session_task.abort();
+        Ok(msgs.iter().map(|m| m.short()).collect())
+    });
+    rdest::verif::set_http(None);
+    let msgs = res?;
+    let outs = t.expected_outputs().into_iter().map(|(rel, _)| { let d = std::fs::read(dir.join(&rel)).unwrap_or_default(); (rel, d) }).collect();
+    Ok((msgs, outs))
+}
+
+fn unseamed_part(ctx: &Ctx) -> (u64, Vec<Value>) {
+    let dir = core::private_cwd("c02", "unseamed");
+    core::set_quiet_panics(true);
+    let mut rows = vec![];
+    let mut n = 0;
+    for (s, _) in scenarios(false).into_iter().filter(|(s, _)| s.owners.len() == 1) .chain(unseamed_extra()) {
+        n += 1;
+        let a = pipe_transcript(&s, &dir);
+        let b = tcp_transcript(&s, &dir);
+        let want_outputs: Vec<(PathBuf, Vec<u8>)> = s.torrent().expected_outputs();
+        match (a, b) {
+            (Ok((ma, oa)), Ok((mb, ob))) => {
+                if ma != mb || oa != ob || ob != want_outputs {
+                    ctx.machinery_error(format!("unseamed replay of {} differs: in-memory {:?} / loopback TCP {:?}; outputs equal: {} / correct: {}", s.name(), ma, mb, oa == ob, ob == want_outputs));
+                }
+                rows.push(json!({"scenario": s.name(), "messages_received_by_the_peer": mb.len(), "identical_to_in_memory_run": ma == mb, "outputs_identical": ob == want_outputs}));
+            }
+            (a, b) => ctx.machinery_error(format!("unseamed replay of {} could not run: {:?} / {:?}", s.name(), a.err(), b.err())),
+        }
+    }
+    (n, rows)
+}
+
+fn unseamed_extra() -> Vec<(Swarm, usize)> {
+    let base = Swarm { label: "", piece_len: 5, files: vec![("f", 13)], single: true, owners: vec![], may_close: vec![], by_have: vec![], with_choke: false, with_interest: false, with_segmentation: false, ticks: 0, tie_breaks: false };
+    vec![(Swarm { label: "e2e-2x16387-multifile-1seeder", piece_len: 16387, files: vec![("a", 100), ("d/b", 0), ("c", 16387 * 2 - 100 - 7)], single: false, owners: vec![own(2, &[0, 1])], may_close: vec![false], by_have: vec![false], ..base }, 0)]
+}
+
 pub fn run(ctx: &Ctx) -> Outcome {
     let thorough = ctx.tier == core::Tier::Thorough;
     let mut total = explore::Stats { exhaustive: true, ..Default::default() };
@@ -435,10 +610,14 @@ pub fn run(ctx: &Ctx) -> Outcome {
         per.push(json!({"scenario": s.name(), "depth": depth, "states": st.states, "transitions": st.transitions, "depth_completed": st.depth_completed, "terminal_states": st.terminal_states, "frontier": st.frontier_sizes}));
         total.merge(&st);
     }
+    let (unseamed, unseamed_rows) = unseamed_part(ctx);
     let mut o = Outcome::new("model_checking");
     explore::stats_outcome(&total, &mut o);
+    o.set("unseamed_replays", json!(unseamed));
+    o.set("unseamed_replay_details", Value::Array(unseamed_rows));
     o.set("scenarios", Value::Array(per));
-    o.set("rule", json!("full-session world; honest peer i: hs handshake, bf bitfield (first message) or hv next Have, un unchoke, ao/an correct answer to the oldest/newest outstanding request, as the same answer split into two reads, hb handshake+bitfield in one read, ck one choke (then un again), in/ni interest, cl disconnect (only peers whose pieces have another owner; they are offered again by the next announce), tick = 10 s of virtual time; BFS over all orders to the stated depth; in every state: no task panicked, session alive; every state that is not expanded further must reach 'all pieces owned, extractor ran, every output file byte-identical, event loop still iterating' under the fair default continuation (each honest peer does its next scripted action, otherwise time passes up to a 900 s horizon)."));
+    o.set("rule", json!("full-session world; honest peer i: hs handshake, bf bitfield (first message) or hv next Have, un unchoke, ao/an correct answer to the oldest/newest outstanding request, as the same answer split into two reads, hb handshake+bitfield in one read, ck one choke (then un again), in/ni interest, cl disconnect (only peers whose pieces have another owner; they are offered again by the next announce), tick = 10 s of virtual time; BFS over all orders to the stated depth; in every state: no task panicked, session alive, no connection task waits for a block its honest peer already delivered; every state that is not expanded further must reach 'all pieces owned, extractor ran, every output file byte-identical, event loop still iterating' under the fair default continuation (each honest peer does its next scripted action, otherwise time passes up to a 900 s horizon)."));
+    o.assume("unseamed replays: the one-seeder downloads are repeated with the connect seam inactive — the real Session connects over loopback TCP (real clock) to an honest seeder in the harness; the sequence of messages that seeder receives and the extracted files must equal those of the in-memory run (a mismatch is a machinery error)");
     o.assume("fairness: honest peers eventually unchoke, answer every valid request, and an interested peer eventually loses interest or leaves; only outgoing connections exist in this world (an incoming one needs a real socket, which cannot be mixed with the paused clock); every tie-break of the piece chooser is enumerated");
     o
 }
